@@ -1023,6 +1023,20 @@ fn small_registries() -> Vec<PortableRegistry> {
         let b = &sh[(i * 7 + 3) % sh.len()];
         regs.push(PortableRegistry { types: vec![PortableType { id: 0, ty: a.clone() }, PortableType { id: u32::MAX - i as u32, ty: b.clone() }] });
     }
+    // ids out of order, repeated, and not equal to the position (hand-built registries are in scope of C07 / C14)
+    regs.push(PortableRegistry { types: vec![PortableType { id: 9, ty: sh[1].clone() }, PortableType { id: 2, ty: sh[2].clone() }, PortableType { id: 5, ty: sh[0].clone() }] });
+    regs.push(PortableRegistry { types: vec![PortableType { id: 2, ty: sh[0].clone() }, PortableType { id: 1, ty: sh[1].clone() }, PortableType { id: 0, ty: sh[2].clone() }] });
+    regs.push(PortableRegistry { types: vec![PortableType { id: 3, ty: sh[3].clone() }, PortableType { id: 3, ty: sh[4].clone() }] });
+    // collection sizes around the compact-length and u8 boundaries: enums with 63 / 64 / 255 / 256 / 300 variants, 70 fields, 300 docs
+    for n in [63usize, 64, 255, 256, 300] {
+        let variants = (0..n).map(|k| Variant { name: format!("V{}", k), fields: vec![], index: k as u8, docs: vec![] }).collect();
+        regs.push(PortableRegistry { types: vec![PortableType { id: n as u32, ty: ptype(&["Big"], vec![], TypeDef::Variant(TypeDefVariant { variants }), &[]) }] });
+    }
+    let fields = (0..70u32).map(|k| pfield(None, k, None, &[])).collect();
+    let docs: Vec<String> = (0..300).map(|k| format!("line {}", k)).collect();
+    let docs_ref: Vec<&str> = docs.iter().map(|d| d.as_str()).collect();
+    regs.push(PortableRegistry { types: vec![PortableType { id: 0, ty: ptype(&["Wide"], vec![], TypeDef::Composite(TypeDefComposite { fields }), &docs_ref) }] });
+    regs.push(PortableRegistry { types: vec![PortableType { id: 0, ty: ptype(&[], vec![], TypeDef::Tuple(TypeDefTuple { fields: (0..16500u32).map(sym).collect() }), &[]) }] });
     regs.push(PortableRegistry { types: vec![PortableType { id: 1 << 30, ty: ptype(&["ü", ""], vec![("T", Some(1 << 14)), ("Ü", None)], TypeDef::Primitive(TypeDefPrimitive::I256), &["", "long doc line ✓"]) }] });
     regs
 }
@@ -1050,9 +1064,14 @@ fn c07(st: &mut Stats, _max: u32) -> Res {
 }
 fn c14_decode(st: &mut Stats) -> Res {
     std::panic::set_hook(Box::new(|_| {}));
-    for r in small_registries().iter().step_by(5) {
+    for (k, r) in small_registries().iter().enumerate() {
         let bytes = r.encode();
-        let mut variants: Vec<Vec<u8>> = Vec::new();
+        let ascending = r.types.windows(2).all(|w| w[0].id < w[1].id);
+        // the uncorrupted encoding of every registry; corruptions of the short ones (every 5th, and all with unordered ids)
+        let mut variants: Vec<Vec<u8>> = vec![bytes.clone()];
+        if bytes.len() > 200 || (k % 5 != 0 && ascending) {
+            variants.push(bytes[..bytes.len() - 1].to_vec());
+        } else {
         for cut in 0..bytes.len() {
             variants.push(bytes[..cut].to_vec());
         }
@@ -1065,6 +1084,7 @@ fn c14_decode(st: &mut Stats) -> Res {
             let mut v = bytes.clone();
             v.insert(pos, 0xFF);
             variants.push(v);
+        }
         }
         for v in variants {
             st.cases += 1;
